@@ -184,6 +184,36 @@ def eval_expr(v, leaf):
                     }[v[1]]()
         except KeyError:
             return None
+    if k == 'ifval':
+        c = eval_expr(v[1], leaf)
+        if c is None:
+            return None
+        return eval_expr(v[2] if c else v[3], leaf)
+    if k == 'matchval':
+        sv = eval_expr(v[1], leaf)
+        if sv is None:
+            return None
+        for d, x in v[2]:
+            if isinstance(d, tuple) and d[0] == 'pat':
+                if d[2] is None or any(lo <= sv <= hi for lo, hi in d[2]):
+                    return eval_expr(x, leaf)
+            elif isinstance(d, tuple) and d[0] == 'guard':
+                c = eval_expr(d[2], leaf)
+                if c is None:
+                    return None
+                if c:
+                    return eval_expr(x, leaf)
+        return None
+    if k == 'call' and v[1] == 'leading_zeros' and len(v) > 3:
+        a = eval_expr(v[3][0], leaf)
+        import re as _re
+        m = _re.search(r'<impl (u|i)(\d+)>', v[2])
+        if a is None or not m:
+            return None
+        bits = int(m.group(2))
+        return bits - a.bit_length() if a >= 0 else 0
+    if k == 'mutvar' and len(v) > 4 and not v[4]:
+        return eval_expr(v[3], leaf)
     if k == 'call' and v[1] in ('saturating_add', 'wrapping_add', 'saturating_sub', 'min', 'max'):
         a, b = eval_expr(v[3][0], leaf), eval_expr(v[3][1], leaf)
         if a is None or b is None:
@@ -321,3 +351,124 @@ def _choose_arms(alt, leaf):
             if c:
                 return [x]
     return []
+
+
+def trace(term, leaf):
+    """the event sequence of the unique path taken under the valuation `leaf`; returns
+    (events, status) with status in {'OK','ERR','PANIC','AMBIG'}; loops are kept as star events"""
+    evs = []
+
+    def run(t):
+        for e in items(t):
+            k = e[0]
+            if k == 'ERR':
+                evs.append(e)
+                return 'ERR'
+            if k == 'PANIC':
+                evs.append(e)
+                return 'PANIC'
+            if k == 'RET':
+                evs.append(e)
+                return 'RET'
+            if k == 'alt':
+                ch = choose_arms(e, leaf)
+                if len(ch) != 1:
+                    # an undecidable assertion (every arm is empty or only panics) does not change the outputs
+                    if all(all(y[0] in ('PANIC', 'ERR', 'cat', 'eps', 'alt') for y in sym.walk(x)) for x in ch):
+                        evs.append(['MAYPANIC', e])
+                        continue
+                    return 'AMBIG'
+                r = run(ch[0])
+                if r != 'OK':
+                    return r
+            elif k in ('HELPER',):
+                r = run(e[2])
+                if r not in ('OK', 'RET'):
+                    return r
+            elif k == 'ONOK':
+                r = run(e[1])
+                if r != 'OK':
+                    return r
+            else:
+                evs.append(e)
+        return 'OK'
+    st = run(term)
+    return evs, ('OK' if st == 'RET' else st)
+
+
+# ------------------------------------------------------------------------------------------
+# structural identification of the crate-private helper functions (their names may change)
+
+_roles_cache = {}
+
+
+def _local_calls(fn, facts):
+    from .c08 import _walk_thir
+    out = []
+    for g in [fn] + facts.closures_of(fn):
+        for node, _p in _walk_thir(g.get('thir'), [], g):
+            if node.get('k') == 'call' and node.get('local') and not node.get('trait') and node['f'] in facts.by_path:
+                out.append(facts.by_path[node['f']])
+    return out
+
+
+def roles(facts):
+    """private helpers by role, found from the public / trait-level anchors that call them:
+    with_len (pub fn decode_vec_with_len) -> bulk (bound ToMutByteSlice) / items -> chunk (called by both);
+    <[T] as Encode>::encode_to -> len_to (returns Result) / slice_no_len; [T; N]::decode_into -> array_bytesize"""
+    key = id(facts)
+    if key in _roles_cache:
+        return _roles_cache[key]
+    r = {}
+    wl = facts.by_path.get('codec::decode_vec_with_len')
+    if wl:
+        r['with_len'] = wl
+        for g in _local_calls(wl, facts):
+            if any(p.endswith('ToMutByteSlice') for p in g.get('preds', [])):
+                r['bulk'] = g
+            elif any(p.endswith(': codec::Input') for p in g.get('preds', [])):
+                r['items'] = g
+        if 'bulk' in r and 'items' in r:
+            a = {g['path'] for g in _local_calls(r['bulk'], facts)}
+            b = {g['path'] for g in _local_calls(r['items'], facts)}
+            common = sorted(a & b)
+            if common:
+                r['chunk'] = facts.by_path[common[0]]
+    se = facts.impl_method('Encode', '[T]', 'encode_to')
+    if se:
+        for g in _local_calls(se, facts):
+            if 'Result' in (g.get('output') or ''):
+                r['len_to'] = g
+            else:
+                r['slice_no_len'] = g
+    ad = facts.impl_method('Decode', '[T; N]', 'decode_into')
+    if ad:
+        for g in _local_calls(ad, facts):
+            if g.get('output') == 'usize':
+                r['array_bytesize'] = g
+    _roles_cache[key] = r
+    return r
+
+
+def role_name(facts, role):
+    g = roles(facts).get(role)
+    return tname(g['path']) if g else '<missing %s>' % role
+
+
+def role_of(facts, fn):
+    for k, g in roles(facts).items():
+        if g['path'] == fn['path']:
+            return k
+    return None
+
+
+def stable_fkey(facts, fn):
+    """like fkey, but crate-private helpers are named by their role so that a rename does not change keys"""
+    owner = fn
+    if fn['kind'] in ('Closure', 'InlineConst') and fn.get('parent') in facts.by_path:
+        owner = facts.by_path[fn['parent']]
+    ro = role_of(facts, owner)
+    if ro:
+        k = fkey(fn)
+        return k.replace(owner['path'], 'helper:' + ro)
+    return fkey(fn)
